@@ -345,6 +345,12 @@ func c17Templates() []c17Template {
 	addHTTP("http-no-host", "GET /index.html HTTP/1.1\r\nUser-Agent: c17\r\n\r\nHost: body.example\r\n\r\n", "", false)
 	addHTTP("http-host-ipv6-port", "GET / HTTP/1.1\r\nHost: [2001:db8::99]:8080\r\n\r\n", "2001:db8::99", false)
 	addHTTP("http-host-ipv6-no-port", "GET / HTTP/1.1\r\nHost: [2001:db8::99]\r\n\r\n", "2001:db8::99", false)
+	// an IPv6 literal WITHOUT brackets in the Host header (not RFC form, but net/http parses it): the destination is
+	// either left alone or becomes exactly that literal - never a piece of it cut at some colon (seed C17-14)
+	for _, v := range [][2]string{{"http-host-ipv6-unbracketed", "2001:db8::99"}, {"http-host-ipv6-unbracketed-loopback", "::1"}, {"http-host-ipv6-unbracketed-full", "2001:db8:0:0:0:0:0:99"}} {
+		d := []byte("GET / HTTP/1.1\r\nHost: " + v[1] + "\r\n\r\n")
+		ts = append(ts, c17Template{Name: v[0], Data: d, ExpHost: v[1], NeedLen: c17HeaderEnd(d), Port: "80", Either: true, Bounds: c17HTTPBounds(d)})
+	}
 	// absolute-form request target: its authority is the host the client asks for (RFC 7230 5.4), no Host header at all
 	addHTTP("http-absolute-uri", "GET http://abs.example/x HTTP/1.1\r\nAccept: */*\r\n\r\n", "abs.example", false)
 	addHTTP("http-letters-not-http", "Wait It's All Ohio? Always Has Been.", "", false)
